@@ -49,12 +49,20 @@ Inductive lclient :=
 | LClosed    (* a client whose done channel is closed *)
 | LConn.     (* connected and negotiated *)
 
-Inductive reader_reply := ReaderOk | ReaderRejects.
+(* what a connected reader does with an ordinary request *)
+Inductive reader_reply :=
+| ReaderOk            (* the expected response, status Success *)
+| ReaderRejects       (* the expected response with a non-success LLRPStatus *)
+| ReaderErrorMessage  (* an ERROR_MESSAGE (SendFor wraps its status as *StatusError) *)
+| ReaderWrongType     (* a reply of another message type *)
+| ReaderGarbage       (* the expected type with a payload that fails to unmarshal *)
+| ReaderLate.         (* no reply before the caller's deadline *)
 
 (* how one TrySend ended / what one attempt met *)
 Inductive sclass :=
 | SOk | SStatus (* reader answered with an error status *) | SCtx (* context expired while waiting *)
-| SClosed (* errors.Is(err, ErrClientClosed) *) | SNoClient (* "no client available" *).
+| SClosed (* errors.Is(err, ErrClientClosed) *) | SNoClient (* "no client available" *)
+| SOther (* any other error of SendFor on an open connection: wrong reply type, undecodable reply *).
 
 Inductive event :=
 | Dial (o : outcome)
@@ -191,7 +199,12 @@ Definition send_class (l : lclient) (r : reader_reply) : sclass :=
   | LNil => SNoClient
   | LClosed => SClosed
   | LFresh => SCtx
-  | LConn => match r with ReaderOk => SOk | ReaderRejects => SStatus end
+  | LConn => match r with
+             | ReaderOk => SOk
+             | ReaderRejects | ReaderErrorMessage => SStatus
+             | ReaderWrongType | ReaderGarbage => SOther
+             | ReaderLate => SCtx
+             end
   end.
 
 Definition step (s : state) (e : event) : state :=
